@@ -151,8 +151,80 @@ def run(ctx):
     cg = CallGraph(prog, crates=["suiron-lib"])
     mw, accs = statics.must_write(prog, cg)
     cl = sorted(c for c in cg.send_closures if c in cg.nodes)
-    ctx.ob("R2", "timer-thunk-sets-flag", bool(cl) and bool(flag) and all(flag & mw.get(c, set()) for c in cl), ctx.where(ST),
-           "the closure handed to the timer writes the stop flag on every path (%s)" % cl)
+    acc_all = {p_: statics.accesses(b_) for p_, b_ in cg.nodes.items()}
+    tokens = statics.generation_tokens(prog, cg, acc_all)
+    okt, whyt = bool(cl) and bool(flag), ""
+    guarded = []
+    for c in cl:
+        if flag & mw.get(c, set()):
+            continue                       # sets the flag on every path
+        # or: sets it on every path on which its own token is still the current one (a cancelled timer that fires late
+        # is ignored); then the token must be taken when the timer is started and advanced by cancel_timer
+        cb = cg.nodes[c]
+        good, nset = True, 0
+        tok = None
+        for p in Walker(cb, max_visits=2, inline=pol).paths():
+            if p.end != "return":
+                continue
+            tests = [e for e in p.events if e["k"] == "branch" and e["cond"][0] == "binop" and e["cond"][1] in ("Eq", "Ne") and
+                     any(strip(x)[0] == "call" and strip(x)[1].endswith("::load") and strip(x)[2] and strip(strip(x)[2][0])[0] == "static"
+                         for x in (e["cond"][2], e["cond"][3]))]
+            sets = [e for e in p.calls() if (e["callee"].endswith("::store") and e["args"] and strip(e["args"][0])[0] == "static" and
+                                             strip(e["args"][0])[1] in flag) or (flag & mw.get(e["callee"], set()))]
+            if len(tests) != 1:
+                good = False
+                continue
+            t0 = tests[0]
+            ld = next(strip(x) for x in (t0["cond"][2], t0["cond"][3]) if strip(x)[0] == "call" and strip(x)[1].endswith("::load"))
+            other = next(strip(x) for x in (t0["cond"][2], t0["cond"][3]) if strip(x) != ld)
+            tok = strip(ld[2][0])[1]
+            is_cur = (t0["value"] is True) == (t0["cond"][1] == "Eq")
+            if not (other[0] == "field" and strip(other[1])[0] == "param" and strip(other[1])[1] == 1):
+                good = False          # the token compared with must be the one captured when the timer was started
+            if is_cur and not sets:
+                good = False
+            if is_cur and sets:
+                nset += 1
+        if not good or nset == 0 or tok not in tokens:
+            okt, whyt = False, "the closure handed to the timer (%s) neither sets the stop flag on every path nor guards it by a generation token" % c
+            continue
+        guarded.append((c, tok))
+        # the captured token is the one taken by an rmw of the token static in the function that starts the timer
+        cap_ok = False
+        creator = cg.nodes.get(c.rsplit("::{closure", 1)[0], ST)
+        for p in Walker(creator, max_visits=2, inline=pol).paths():
+            for e in p.calls():
+                if e["callee"].endswith("ThreadTimer::start"):
+                    for a in e["args"]:
+                        a0 = strip(a)
+                        if a0[0] == "closure" and a0[1] == c and a0[2]:
+                            cap_ok = all(mentions(x, lambda t: t[0] == "call" and any(t[1].endswith(r) for r in statics.RMW) and
+                                                  t[2] and strip(t[2][0]) == ("static", tok)) for x in a0[2])
+        if not cap_ok:
+            okt, whyt = False, "the token the timer compares with is not taken (read-modify-write of `%s`) where the timer is started" % tok
+        # cancel_timer advances the token on every returning path, and only the two timer functions advance it
+        adv = True
+        for p in Walker(CT, max_visits=2, inline=pol).paths():
+            if p.end == "return" and not any(e["callee"].endswith(tuple(statics.RMW)) and e["args"] and strip(e["args"][0]) == ("static", tok)
+                                             for e in p.calls()):
+                adv = False
+        if not adv:
+            okt, whyt = False, "cancel_timer does not advance `%s` on every path: a timer it failed to cancel would still stop a later query" % tok
+        starters = {x.rsplit("::{closure", 1)[0] for x in cl}        # the functions that start a timer with such a thunk
+        if not set(tokens[tok]["rmw"]) <= starters | {CT.path}:
+            okt, whyt = False, "`%s` is also advanced by %s: a running query's timer could be disarmed" % (
+                tok, sorted(set(tokens[tok]["rmw"]) - starters - {CT.path}))
+    # thread_timer's cancel() can fail (NotWaiting when it loses a race with the timer thread) and cancel_timer cannot
+    # tell: a timer whose cancellation failed fires later.  That is harmless only if its thunk is disarmed by then.
+    unguarded = [c for c in cl if c not in [g[0] for g in guarded]]
+    ctx.ob("R2", "failed-cancel-harmless", okt and not unguarded, ctx.where(CT),
+           "a timer that cancel() failed to stop is ignored when it fires (its token is no longer current)" if (okt and not unguarded) else
+           "ThreadTimer::cancel can fail, and the thunk of %s sets the stop flag unconditionally: a timer that was not "
+           "really cancelled stops whatever query is running when it fires" % (unguarded or cl))
+    ctx.ob("R2", "timer-thunk-sets-flag", okt, ctx.where(ST), whyt or (
+        "the closure handed to the timer writes the stop flag on every path (%s)" % cl if not guarded else
+        "the closure handed to the timer sets the stop flag whenever its token is still current; the token is taken at start "
+        "and advanced by cancel_timer, so a timer that could not be cancelled is ignored when it fires (%s)" % guarded))
     # ---- R5 ---------------------------------------------------------------
     CR = prog.one("knowledge_base::count_rules")
     if CR is None:
